@@ -79,6 +79,13 @@ CHECKS = {
             'use of an added parameter).',
             'explicit-state BFS with an invariant over all classes and instances (no reference model other than Python attribute lookup)',
             BASE_NOTE),
+    'C14': ('model_checking', 'DESIGN.md §3 C14',
+            'BFS over instance sets of a constant (new object / the identical object), of a read-only parameter and of name, single-key update, class-level '
+            'sets on the declaring class and on a subclass, nested and failing edit_constant blocks on either of two instances, and creation of per-instance '
+            'Parameter copies; after every step the identity held by every constant (incl. one whose default is None), read-only and name parameter and the '
+            'class defaults are compared with the model, and whenever no edit block is open every constant flag on class and instance Parameter objects must be True.',
+            'explicit-state BFS over operation histories of the real code vs. an identity model',
+            BASE_NOTE),
     'C15': ('exploration', 'DESIGN.md §3 C15',
             'For 18 serializable parameter types a boundary-rich value list (extreme ints/floats, -0.0, escape-laden and non-ASCII strings, empty '
             'containers, microseconds, years 1/999/9999, date-only and datetime ranges, None) x class/instance level x {all, subset=, '
